@@ -607,8 +607,14 @@ pub fn judge_c09(c: &C09Case, pr: &Probe, instances: usize) -> Judge {
         if names.get(1).map(|s| s.as_str()) != Some("attributes-natural-language") {
             return fail("language-not-second", format!("operation attributes start with {:?}", names.iter().take(4).collect::<Vec<_>>()));
         }
-        let has = |n: &str| names.iter().any(|x| x == n);
+        // a target attribute counts as present when it is in ANY operation-attributes group on the wire
+        // (additions can only put it into the leading one; finding it elsewhere means it was misplaced)
+        let all_op: Vec<String> = d.msg.groups.iter().filter(|g| g.tag == 0x01).flat_map(|g| g.attrs.iter().map(|a| String::from_utf8_lossy(&a.name).to_string())).collect();
+        let has = |n: &str| all_op.iter().any(|x| x == n);
         let (pu, ju, ji) = (has("printer-uri"), has("job-uri"), has("job-id"));
+        if d.msg.groups.iter().filter(|g| g.tag == 0x01).count() > 1 {
+            return fail("operation-group-split", format!("the message was built by additions only, but {} operation-attributes groups are on the wire", d.msg.groups.iter().filter(|g| g.tag == 0x01).count()));
+        }
         if pu != ju {
             let target = if pu { "printer-uri" } else { "job-uri" };
             if names.get(2).map(|s| s.as_str()) != Some(target) {
